@@ -66,6 +66,16 @@ _PER = {'quick': 3, 'thorough': 120}
 _K = {'quick': 5, 'thorough': 10}
 
 
+def attach_monitors():
+    from .. import monitors
+    monitors.attach_contracts()
+
+
+def monitor_counts():
+    from .. import monitors
+    return dict(monitors.COUNTS)
+
+
 def plan(tier):
     out = []
     for src, (_fn, fams) in SOURCES.items():
